@@ -204,6 +204,29 @@ def leak_checks(chk):
                            detail=f"declared {sorted(declared)} ({sorted(decl_kind)}), expected {sorted(want)}\n{sx.show(out.result)}")
 
 
+def _replay_target_leak(head, kind, tname, clause, assigned, declared, want):
+    """Through the whole pipeline: a program in which the wrongly (un)declared name is observable after the comprehension."""
+    import types
+    data = {"[ua #* ur]": "[1 2 3]", "[ua [ub #* ur]]": "[1 [2 3 4]]", "#(ua ub)": "[1 2]"}[tname]
+    extra, missing = sorted(declared - want), sorted(want - declared)
+    if not extra and not missing:
+        return None
+    n = (extra or missing)[0]
+    do = " ".join(f"(setv {a} 5)" for a in assigned)
+    it = f"{tname} [{data}]" if clause == "for" else f"ux [0] :setv {tname} {data}"
+    final = "ua ua" if head == "dfor" else "ua"
+    comp = f"(list ({head} {it} :do (do {do}) {final}))"
+    body = f"(setv {n} \"before\") {comp} {n}"
+    src = f"(defn hv_f [] {body}) (hv_f)" if kind == "function" else f"(do {body})"
+    expected = "before" if extra else 5
+    try:
+        mod = types.ModuleType("hv_c04_leak")
+        got = hy.eval(hy.read_many(src), module=mod, locals=mod.__dict__)
+    except Exception as e:  # noqa: BLE001
+        got = f"{type(e).__name__}: {e}"
+    return {"confirmed": got != expected, "input": src, "observed": repr(got), "expected": repr(expected)}
+
+
 def destructuring_target_leaks(chk):
     """As leak_checks, for destructuring iteration / :setv targets: every name the target binds - also the rest name of a
     `#*` unpack and names nested in sub-lists - is an iteration variable of the comprehension and is never declared
@@ -232,8 +255,10 @@ def destructuring_target_leaks(chk):
                         fds = [s_ for s_ in out.result.stmts if isinstance(s_, (ast.FunctionDef, ast.AsyncFunctionDef))]
                         declared = {n for fd in fds for s_ in fd.body if isinstance(s_, (ast.Nonlocal, ast.Global)) for n in s_.names}
                         want = set(assigned) - own - ({"ux"} if clause == "setv" else set())
-                        chk.ob(name, len(fds) == 1 and declared == want, "structural", "proved",
-                               detail=f"declared {sorted(declared)}, expected {sorted(want)}\n{sx.show(out.result)}")
+                        okk = len(fds) == 1 and declared == want
+                        chk.ob(name, okk, "structural", "proved",
+                               detail=f"declared {sorted(declared)}, expected {sorted(want)}\n{sx.show(out.result)}",
+                               replay=None if okk else _replay_target_leak(head, kind, tname, clause, assigned, declared, want))
 
 
 def nested_leaks(chk):
